@@ -80,6 +80,9 @@ def rand_chunking(rng, n):
 FIXED = {2: 14, 3: 14, 4: 6, 5: 6, 6: 10, 7: 10, 8: 10, 9: 6, 10: 6, 11: 10, 14: 14}
 
 
+M0_OFFSET = {'PAYLOAD': 6, 'REQUEST_RESPONSE': 6, 'REQUEST_FNF': 6, 'REQUEST_STREAM': 10, 'REQUEST_CHANNEL': 10}
+
+
 class C04(Prop):
     id = 'C04'
     lean_modules = ['RSocketModel.Props.C04']
@@ -112,6 +115,9 @@ class C04(Prop):
                 out.append({'kind': 'stub', 'bodies': [b.hex() for b in bodies], 'tail': tail.hex(), 'cuts': pts, 'style': style})
             elif kind in ('real', 'tcp', 'wsmsg', 'quic'):
                 specs = [FR.gen_spec(rng) for _ in range(rng.randint(1, 6))]
+                for sp in specs:
+                    if sp['t'] in M0_OFFSET and rng.random() < 0.25:
+                        sp['md'], sp['M0'] = '', True
                 junk = rng.choice(['', '', 'ee', '0000000000ff', '00000001' + 'ff' * 4])  # undecodable but delimited bodies
                 c_undec = junk in ('ee', '0000000000ff')      # shorter than a header / unknown frame type
                 if rng.random() < 0.3:
@@ -162,7 +168,13 @@ class C04(Prop):
     def _wire(self, case):
         bodies = []
         for s in case['specs']:
-            bodies.append(FR.build(s).serialize())
+            b = FR.build(s).serialize()
+            if s.get('M0') and s['t'] in M0_OFFSET and not s.get('md'):
+                # the METADATA flag with a zero-length metadata block in front of the data: what other implementations put on the wire for
+                # an empty-but-present metadata; it carries the same frame as the unflagged form
+                off = M0_OFFSET[s['t']]
+                b = b[:4] + bytes([b[4] | 0x01]) + b[5:off] + b'\x00\x00\x00' + b[off:]
+            bodies.append(b)
         if case['junk']:
             bodies.insert(case['junk_pos'], bytes.fromhex(case['junk']))
         return bodies, b''.join(len(b).to_bytes(3, 'big') + b for b in bodies)
@@ -212,7 +224,10 @@ class C04(Prop):
             except Exception:
                 valid_only.append('INVALID')
         expected = []
-        for b in bodies:
+        plain = [FR.build(s).serialize() for s in case['specs']]
+        if case['junk']:
+            plain.insert(case['junk_pos'], bytes.fromhex(case['junk']))
+        for b in plain:      # (a frame sent with the METADATA flag and zero-length metadata is the frame its unflagged form decodes to)
             try:
                 fr = F.parse_or_ignore(b)
                 expected += [FR.dump(fr)] if fr is not None else []
